@@ -38,17 +38,27 @@ def run(tier, seed):
 
     def shape(s):
         pre, fin = s["hist"][:-1], s["hist"][-1]["b"]
-        return tuple((h["op"], h["ok"], bool(h["b"]["txs"]), "removeP" in h["b"]["txs"], h["b"]["prices"], h["b"]["bad"])
-                     for h in pre) + (any(h["b"] == fin for h in pre), fin["prices"], s["dev"])
+        same_but_evidence = any({k: v for k, v in h["b"].items() if k != "misb"} == {k: v for k, v in fin.items() if k != "misb"}
+                                and h["b"] != fin for h in pre)
+        return tuple((h["op"], h["ok"], bool(h["b"]["txs"]), "removeP" in h["b"]["txs"], h["b"]["prices"], h["b"]["bad"],
+                      h["b"]["misb"]) for h in pre) + (any(h["b"] == fin for h in pre), same_but_evidence, fin["prices"],
+                                                       fin["misb"], s["dev"])
     classes = {}
     for s in schedules:
         classes.setdefault(shape(s), []).append(s)
-    # quick: one schedule of every shape; thorough: several
-    n = len(classes) if tier == "quick" else 6000
-    sample = []
-    depth = 0
+    # quick: one schedule of each of 1500 shapes, those first in which the decided block differs from an earlier one only
+    # in its evidence, a refused proposal had executed something, or the named deviation fires; thorough: every shape,
+    # several times
     keys = sorted(classes, key=repr)
     rnd.shuffle(keys)
+
+    def priority(k):
+        pre = k[:-5]
+        return 0 if (k[-4] or k[-1] or any(st[0] == "process" and not st[1] and st[2] for st in pre)) else 1
+    keys.sort(key=priority)
+    n = 1500 if tier == "quick" else 12000
+    sample = []
+    depth = 0
     while len(sample) < n and any(len(c) > depth for c in classes.values()):
         for k in keys:
             if len(classes[k]) > depth and len(sample) < n:
